@@ -848,6 +848,11 @@ func runStorage(r *mon.Run, seq []stRec, q *int64) {
 		rec := mk(x)
 		s.Add(rec)
 		m.add(rec.Addr, rec.Names)
+		// the caller goes on owning its record: it refills and extends the Names slice for the next line
+		for i := range rec.Names {
+			rec.Names[i] = "overwritten.example"
+		}
+		rec.Names = append(rec.Names[:0], "refilled.example", "refilled2.example", "refilled3.example")
 		if w := observeStorage(s, m, q); w != "" {
 			fail(w)
 			return
@@ -927,8 +932,14 @@ func runStorageBig(r *mon.Run, c stBig, q *int64) {
 			names = append(names, name(i, rng.IntN(3)))
 		}
 		hist = append(hist, fmt.Sprintf("Add{%v %q}", a, names))
-		s.Add(&hostsfile.Record{Addr: a, Names: names, Source: "big"})
+		// the record's Names slice has spare capacity and is scribbled over after the call
+		given := append(make([]string, 0, len(names)+3), names...)
+		s.Add(&hostsfile.Record{Addr: a, Names: given, Source: "big"})
 		m.add(a, names)
+		for i := range given {
+			given[i] = "overwritten.example"
+		}
+		_ = append(given, "x1.example", "x2.example", "x3.example")
 		if step%4 != 3 && step != c.Steps-1 {
 			continue
 		}
